@@ -285,6 +285,41 @@ def impl_server(case):
                 if fail is None:
                     fail = ('server-raises:' + type(e).__name__, 'PortServer.receive raised %r' % (e,))
         out += [st['sleeps'], len(server.ports), sum(1 for p in server.ports if p.closed)]
+        # the property on the real server: keep polling until every client's events have happened and nothing more comes; then every
+        # complete message of every client must have been handed out exactly once, each client's messages in order
+        got = []
+        i = 0
+        while i < len(out) - 3:
+            if out[i] == 1 and out[i + 1] == 1:
+                j = out.index(-9, i)
+                got.append(out[i + 2:j]); i = j + 1
+            elif out[i] in (1, 3):
+                i = out.index(-9, i) + 1
+            else:
+                i += 1
+        if fail is None and not any(out[i] == 3 for i in range(len(out) - 3) if (i == 0 or out[i - 1] == -9)):
+            idle = 0
+            for _ in range(200):
+                st['n'] = -10 ** 9
+                m = server.poll()
+                if m is None:
+                    idle += 1
+                    if idle >= 3 and all(not p.evs for p in peers.values()):
+                        break
+                else:
+                    idle = 0
+                    got.append(canon.msg_ints(m))
+            import mido
+            want_per_client = [[canon.msg_ints(mido.Message.from_bytes(e)) for e in walk_complete(p.delivered)] for p in peers.values()]
+            flat = sorted(x for w in want_per_client for x in map(tuple, w))
+            if sorted(map(tuple, got)) != flat:
+                fail = ('server-lost', 'the clients delivered the complete messages %r but the server handed out %r' % (want_per_client, got))
+            else:
+                for w in want_per_client:
+                    seen = [g for g in got if g in w]
+                    unique = len(flat) == len(set(flat))              # message values identify their client only when all are distinct
+                    if unique and [g for g in seen] != [x for x in w if x in seen]:
+                        fail = ('server-order', 'messages of one client were handed out in the order %r, sent %r' % (seen, w))
     finally:
         ports.sleep, sockets._is_readable, ports.random.shuffle = saved
         try:
